@@ -200,6 +200,33 @@ func (e *Enc) invoke(fr *Frame, st *State, cc *ssa.CallCommon, recv *Val, args [
 }
 
 func (e *Enc) dynamicCall(fr *Frame, st *State, cc *ssa.CallCommon, fnv *Val, args []*Val, rt types.Type, site ssa.Instruction) *Val {
+	// a call through a package-level func variable that is only assigned in init
+	if u, ok := cc.Value.(*ssa.UnOp); ok {
+		if g, ok := u.X.(*ssa.Global); ok {
+			if f := e.w.constFuncGlobal(g); f != nil {
+				full := f.String()
+				if r, handled := e.special(fr, st, full, f, args, rt, site); handled {
+					return r
+				}
+				if c := e.w.contractFor(f); c != nil && !c.Inline {
+					var names []string
+					for _, p := range f.Params {
+						names = append(names, p.Name())
+					}
+					return e.modularCall(fr, st, c, names, args, rt, site, funcKey(f), f.Signature)
+				}
+				if f.Blocks != nil && e.w.inRepo(funcPkgPath(f)) {
+					return e.inlineCall(fr, st, f, args, nil, rt)
+				}
+				if e.w.pureExternal(full) {
+					r := e.fresh(rt, "ext")
+					e.assume(st, e.wf(r, st.alloc))
+					e.note("external call treated as pure with arbitrary result: %s", full)
+					return r
+				}
+			}
+		}
+	}
 	// function-typed value: use a functype contract when the static type is named
 	if n, ok := cc.Value.Type().(*types.Named); ok && n.Obj().Pkg() != nil {
 		if c := e.w.contractByKey(n.Obj().Pkg().Path(), "functype."+n.Obj().Name()); c != nil {
@@ -728,6 +755,13 @@ func (e *Enc) callWriteSet(fr *Frame, li *loopInfo, st *State, cc *ssa.CallCommo
 		return
 	}
 	callee := cc.StaticCallee()
+	if callee == nil {
+		if u, ok := cc.Value.(*ssa.UnOp); ok {
+			if g, ok := u.X.(*ssa.Global); ok {
+				callee = e.w.constFuncGlobal(g)
+			}
+		}
+	}
 	if callee == nil {
 		if n, ok := cc.Value.Type().(*types.Named); ok && n.Obj().Pkg() != nil {
 			if c := e.w.contractByKey(n.Obj().Pkg().Path(), "functype."+n.Obj().Name()); c != nil {
